@@ -457,6 +457,15 @@ def wrapper(chk):
         detail = f'count variable {npart}; truncations {len(sl)}'
     chk.check(ok, 'C15-R2', P9, 'unpack_pack9', 'allocated outputs truncated to the decoded particle count; kernel argument order', detail,
               f'wrapper does not truncate both outputs to the decoded count or passes arguments in another order ({detail})', node=fn)
+    # a preallocated output reaches the kernel as a view of the caller's memory (never a possible copy)
+    from ..core.idioms import supplied_output_reaches
+    if len(call) == 1:
+        for P_, pos_ in (('posout', 3), ('velout', 4)):
+            if pos_ < len(call[0].value.args):
+                okv_, why_ = supplied_output_reaches(fn, P_, call[0].value.args[pos_])
+                chk.check(okv_, 'C15-R5', P9, 'unpack_pack9', f'a supplied {P_} reaches the kernel as a view of the caller\'s array (never a possible copy)', why_,
+                          f'{why_}: for a strided or Fortran-ordered preallocated array the kernel decodes into a temporary copy that is dropped; the caller\'s array '
+                          'stays unfilled while the particle count is returned', node=fn)
 
 
 def _header_counter_form(fn, lp, H, iv, data, outs):
